@@ -260,10 +260,18 @@ func (f *Func) Locks() *LockInfo { return f.LocksWithEntry(nil) }
 
 // HeldBefore returns the locks that are held on every path just before node n executes.
 func (li *LockInfo) HeldBefore(n ast.Node) LockState {
-	l := li.C.LocOf(n)
-	if !l.Valid() {
+	ls := li.C.LocsOf(n)
+	if len(ls) == 0 {
 		return LockState{}
 	}
+	st := li.heldBeforeLoc(ls[0])
+	for _, l := range ls[1:] {
+		st = meet(st, li.heldBeforeLoc(l))
+	}
+	return st
+}
+
+func (li *LockInfo) heldBeforeLoc(l Loc) LockState {
 	in, ok := li.in[l.B]
 	if !ok {
 		return LockState{}
